@@ -145,9 +145,121 @@ def stepLine (d : DSt) (line : String) : DSt × String :=
   | ["rpcs"] => (d, "rpcs calls=7 sys=false vig=false vigdead=-1")
   | _ => (d, "bad-op")
 
+/-! ### Trace inclusion (domain C17s): replay a log of the real vigil under genuine concurrency.
+    `cdec` / `checked` / `passed` are logged under `v.mu`.  The increment of `BeginVigil` takes no
+    lock: it is bracketed by `bpre` / `bpost` and the model takes its `begin` step at the latest
+    at `bpost` — earlier when an observation under the mutex proves the increment has happened.
+    Likewise a ceaser's `bcast` lies between its `cdec` and its `bdone`. -/
+
+structure T17 where
+  cfg : Cfg
+  s : St := init
+  /-- BeginVigil calls between `bpre` and `bpost` -/
+  pre : Nat := 0
+  /-- … of which the model has already taken the `begin` step -/
+  early : Nat := 0
+  /-- broadcasts the model has taken before their `bdone` -/
+  earlyB : Nat := 0
+  /-- BeginVigil calls whose `bpost` was logged since the last line logged under the mutex: the
+      mutex holder that logs next read the counter at some point after that line, so it may or may
+      not have seen them — the model's `begin` steps are taken after its check unless it saw them -/
+  posted : Nat := 0
+
+def fire (t : T17) (a : Act) : Option T17 := (step t.cfg t.s a).map (fun s' => { t with s := s' })
+
+def fireAll (t : T17) (as : List Act) : Option T17 := as.foldlM fire t
+
+def flush (t : T17) : T17 :=
+  ((fireAll t (List.replicate t.posted .begin)).map (fun t' => { t' with posted := 0 })).getD t
+
+/-- take pending `begin` steps until the model's counter is `v` (exact reading: every posted
+    increment is included) -/
+def raiseTo (t : T17) (v : Nat) : Option T17 :=
+  let t := flush t
+  if v < t.s.vigils then none else
+  let need := v - t.s.vigils
+  if need ≤ t.pre - t.early then
+    (fireAll t (List.replicate need .begin)).map (fun t' => { t' with early := t'.early + need })
+  else none
+
+/-- waiter `w` is about to look at the counter under the mutex: a sleeping waiter needs a broadcast
+    that followed its ticket; then it takes the mutex -/
+def wakeAndLock (t : T17) (w : Nat) : Except String T17 :=
+  let t1 : Except String T17 :=
+    if t.s.wpc w == .parked then
+      match fire t .bcast with
+      | some t' => .ok { t' with earlyB := t'.earlyB + 1 }
+      | none => .error s!"waiter {w} continued although no broadcast followed its ticket"
+    else .ok t
+  match t1 with
+  | .error e => .error e
+  | .ok t1 =>
+    match fire t1 (.wLock w) with
+    | some t2 => .ok t2
+    | none => .error s!"waiter {w} holds the mutex while the model's mutex is not free (or it is not woken)"
+
+def tstep (t : T17) (line : String) : T17 × String :=
+  match words line with
+  | ["case", _] => ({ cfg := t.cfg }, line)
+  | ["bpre"] => ({ t with pre := t.pre + 1 }, "ok")
+  | ["bpost"] =>
+    if t.pre == 0 then (t, "bad bpost: no BeginVigil in progress") else
+    if t.early > 0 then ({ t with pre := t.pre - 1, early := t.early - 1 }, "ok") else
+    ({ t with pre := t.pre - 1, posted := t.posted + 1 }, "ok")
+  | ["cdec", vs] =>
+    match vs.toInt? with
+    | none => (t, "bad-op")
+    | some v =>
+      if v < 0 then (t, s!"bad cdec: the counter went negative ({v})") else
+      match raiseTo t (v.toNat + 1) with
+      | none => (t, s!"bad cdec: counter after the decrement is {v}, the model has {t.s.vigils} in flight (+{t.pre - t.early} beginning)")
+      | some t1 =>
+        match fireAll t1 (if t.cfg.decUnderLock then [.cLock, .cDec, .cUnlock] else [.cDec]) with
+        | some t2 => (t2, "ok")
+        | none => (t, "bad cdec: the decrement under the mutex is not a step of the model (mutex not free)")
+  | ["bdone"] =>
+    if t.earlyB > 0 then ({ t with earlyB := t.earlyB - 1 }, "ok") else
+    match fire t .bcast with
+    | some t' => (t', "ok")
+    | none => (t, "bad bdone: a broadcast without a preceding decrement")
+  | ["checked", ws] =>
+    match ws.toNat? with
+    | none => (t, "bad-op")
+    | some w =>
+      match wakeAndLock t w with
+      | .error e => (t, "bad checked: " ++ e)
+      | .ok t1 =>
+        let t2 := if t1.s.vigils > 0 then some t1
+          else if t1.posted > 0 then (fire t1 .begin).map (fun x => { x with posted := x.posted - 1 })
+          else if t1.pre > t1.early then (fire t1 .begin).map (fun x => { x with early := x.early + 1 })
+          else none
+        match t2 with
+        | none => (t, s!"bad checked: waiter {w} saw an operation in flight, the model has none")
+        | some t2 =>
+          match fireAll t2 [.wCheck w, .wAdd w, .wPark w] with
+          | some t3 => if t3.s.wpc w == .parked then (flush t3, "ok") else (t3, "bad checked: not parked")
+          | none => (t, "bad checked: not a step")
+  | ["passed", ws] =>
+    match ws.toNat? with
+    | none => (t, "bad-op")
+    | some w =>
+      match wakeAndLock t w with
+      | .error e => (t, "bad passed: " ++ e)
+      | .ok t1 =>
+        if t1.s.vigils > 0 then (t, s!"bad passed: waiter {w} returned while {t1.s.vigils} operation(s) are in flight") else
+        match fire t1 (.wCheck w) with
+        | some t2 => if t2.s.wpc w == .done then (flush t2, "ok") else (t2, "bad passed: the model's check does not let the waiter through")
+        | none => (t, "bad passed: not a step")
+  | ["hang"] => (t, "bad hang: a waiter stayed asleep after every operation had ceased" ++
+      (if (List.range 64).any (fun w => stuckB t.s w) then " (the model state is Stuck too)" else ""))
+  | _ => (t, "bad-op")
+
 def run (args : List String) : IO UInt32 := do
   let kv := parseArgs args
   let cfg : Cfg := { decUnderLock := arg kv "decrementUnderCondLock" == "yes", checkStrict := arg kv "checkStrict" != "no" }
+  if arg kv "mode" == "trace" then
+    lineLoop tstep { cfg := cfg }
+    return 0
   lineLoop stepLine { cfg := cfg, closeCancels := arg kv "closeCancels" != "no" }
   return 0
 
